@@ -395,7 +395,17 @@ func (c01) Shrinks(sc core.Script) []core.Script {
 	// keep only signature i, with the stream cut to its accepted candidate: cannot know
 	// positions without running, so try dropping leading signatures together with
 	// leading candidates.
+	if len(s.Sigs) > 16 { // long-lived signer: halves first
+		for _, rg := range core.DropRanges(len(s.Sigs)) {
+			c := cp()
+			c.Sigs = append(c.Sigs[:rg[0]], c.Sigs[rg[1]:]...)
+			out = append(out, c)
+		}
+	}
 	for i := range s.Sigs {
+		if len(s.Sigs) > 16 {
+			break
+		}
 		c := cp()
 		c.Sigs = append(c.Sigs[:i], c.Sigs[i+1:]...)
 		out = append(out, c)
@@ -406,9 +416,9 @@ func (c01) Shrinks(sc core.Script) []core.Script {
 			out = append(out, c2)
 		}
 	}
-	for i := range s.Content.Candidates {
+	for _, rg := range core.DropRanges(len(s.Content.Candidates)) {
 		c := cp()
-		c.Content.Candidates = append(c.Content.Candidates[:i], c.Content.Candidates[i+1:]...)
+		c.Content.Candidates = append(c.Content.Candidates[:rg[0]], c.Content.Candidates[rg[1]:]...)
 		out = append(out, c)
 	}
 	if len(s.Program) > 0 {
